@@ -114,7 +114,28 @@ class Gen:
         kind = rng.weighted([("add", 10), ("new", 8), ("del", 24), ("con", 10), ("bond", 16), ("bonds", 4),
                              ("delb", 8), ("rmsub", 6), ("addh", 5), ("addbad", 3), ("readd", 4),
                              ("mkview", 7 if n else 0), ("vread", 9 if nv else 0), ("vwrite", 8 if nv else 0),
-                             ("pair", 8 if n else 0), ("rebond", 9 if self.r.bond_objs else 0)])
+                             ("pair", 8 if n else 0), ("rebond", 9 if self.r.bond_objs else 0), ("newbonds", 8)])
+        if kind == "newbonds":
+            k = rng.range(1, 3)
+            own = rng.choice([None, None, "other"])
+            # bonds of another molecule join atoms of that molecule: all ends are new free atoms then
+            ends = [[self.end(100 if own else 35), self.end(100 if own else 60)] for _ in range(k)]
+            ends = [[x, y] for x, y in ends if not own or (isinstance(x, list) and isinstance(y, list))] or \
+                   [[[self.fresh_ext(), 6, None], [self.fresh_ext(), 8, None]]]
+            k = len(ends)
+            base = list(range(k))
+            rng.shuffle(base)
+            shape = rng.weighted([("distinct", 40), ("twice-adjacent", 15), ("twice-apart", 20), ("thrice-apart", 25)])
+            if shape == "distinct":
+                pattern = base
+            elif shape == "twice-adjacent":
+                pattern = base + [base[-1]]
+            elif shape == "twice-apart":
+                pattern = [base[0]] + base[1:] + [base[0]] if k > 1 else [base[0], base[0]]
+            else:
+                rest = base[1:] or []
+                pattern = [base[0]] + rest[:1] + [base[0]] + rest[1:] + [base[0]]
+            return ["newbonds", ends, pattern, rng.choice(["many", "extend"]), own]
         self.seen_members.update(self.members())
         if kind == "rebond":
             st = self.stale_bonds()
@@ -296,7 +317,7 @@ def nontrivial(res) -> bool:
     for op, out in zip(res["ops"], res["outs"]):
         if out != "ok":
             continue
-        if op[0] in ("add", "new", "bond", "bonds", "addh", "readd"):
+        if op[0] in ("add", "new", "bond", "bonds", "addh", "readd", "newbonds", "rebond"):
             added = True
         if op[0] in ("del", "rmsub", "vread", "vwrite") and added:
             return True
